@@ -19,6 +19,7 @@ def genCfg : Cfg :=
     mixedUsesCompiled := C13.mixedGetitemUsesCompiled
     boolRefuses := C13.boolRefuses
     boolLookupOrder := C13.boolLookupOrder
-    builtinMethodTypes := C13.builtinMethodTypes }
+    builtinMethodTypes := C13.builtinMethodTypes
+    boolWalkMroOuter := C13.boolWalkMroOuter }
 
 end JediModel.Props.C13
